@@ -1075,7 +1075,7 @@ fn run_conc(prefix: &[Op], calls: &[Spec], seed: u64, fixed: Option<&[u64]>) -> 
     let mut k = 0usize;
     let trace = sc.run(
         |en| {
-            if let Some((a, _)) = en.iter().find(|(_, p)| *p != "start" && *p != "cont.before_lock") {
+            if let Some((a, _)) = en.iter().find(|(_, p)| *p != "start" && *p != "cont.before_lock" && *p != "compact.sched.before_spawn") {
                 return Some(*a); // inside an append or a file-system step: finish the quantum
             }
             let choice = match fixed {
@@ -1160,6 +1160,24 @@ fn run_conc(prefix: &[Op], calls: &[Spec], seed: u64, fixed: Option<&[u64]>) -> 
         let ended = w.events.iter().filter(|e| matches!(&e.kind, EventKind::ContinuityJobEnded { job_id, .. } if job_id == j)).count();
         if ended != 1 {
             viol.push(Viol { what: format!("call returned for job {j} but the stream holds {ended} job_ended frame(s) for it"), class: "job_bracket".into() });
+        }
+    }
+    // every completed job created precisely the cuts its job_spawned frame announced
+    for e in &w.events {
+        if let EventKind::ContinuityJobEnded { job_id, status, result, .. } = &e.kind {
+            if status != "completed" {
+                continue;
+            }
+            let mut made: Vec<u64> = createds_of_value(&result.clone().unwrap_or(Value::Null)["created"]).iter().map(|c| c.2).collect();
+            let mut planned: Vec<u64> = w.events.iter().find_map(|s| match &s.kind {
+                EventKind::ContinuityJobSpawned { job_id: j, details, .. } if j == job_id => Some(plans_of_value(&details.clone().unwrap_or(Value::Null)["planned"]).iter().map(|p| p.1).collect()),
+                _ => None,
+            }).unwrap_or_default();
+            made.sort();
+            planned.sort();
+            if made != planned {
+                viol.push(Viol { what: format!("job {} completed with checkpoints at to_seq {made:?} but its job_spawned frame planned to_seq {planned:?}", w.job_no(job_id)), class: "job_created_differs_from_spawned_plan".into() });
+            }
         }
     }
     // replay safety: after the race the queries still answer from truth, with and without caches
